@@ -3,7 +3,7 @@ CONSTANTS
   Sizes = {0, 1, 2, 3}
   MaxWrites = 4
   MaxSteps = 10
-  WithFatalKeep = TRUE
+  WithFatalKeep = FALSE
   WithEof = TRUE
   Variant = "requeue"
 INVARIANT TypeOK
